@@ -543,6 +543,13 @@ func (c *Ctx) ruleSitesCTOR() {
 				}
 			case "CTOR03":
 				c.dispatch(si, rule, []string{"GenDecl<node>", "ValueSpec<GenDecl.Specs[]>"})
+				// "reported at that expression": every declared name is its own instantiation and is reported at its
+				// own position (`var lo, hi T`: the framework drops diagnostics that share position and message)
+				if pv := s.PosVal; pv != nil {
+					d := P.DescDeep(pv)
+					c.check(strings.Contains(d, "go/ast.ValueSpec.Names)") && strings.Contains(d, "elem"), rule+"/POS-PER-NAME", si.Name, P.Pos(s.Alloc.Pos()),
+						"the position is that of the declared name", "a `var` declaration of several names is reported at one position for all of them ("+short(d)+"): the reports collapse into one")
+				}
 				c.require(si, rule, "TOK(var)", si.take("tok", func(l Lit) bool { return l.Pos && tokAtom(l, "go/ast.GenDecl", token.VAR) }), "CTOR03 must be reported for var declarations (GenDecl.Tok == VAR) only")
 				noInit := si.take("no-initialiser", func(l Lit) bool {
 					// len(valueSpec.Values) > 0 is false:  -lt(const 0, len(Values))  or +eq(len(Values), 0)
